@@ -144,6 +144,10 @@ def history_config(r, hooks=(), big=False):
         restol=-1.0,
     )
     cfg['run'] = {'t0': t0, 'Tend': Tend, 'u0': r.choice(['ones', 'exact' if abs(t0) < 5 else 'ones', r.randint(0, 999)])}
+    if nlevels == 1 and r.random() < 0.08:
+        # end point by collocation update (legal for single-level multi-step runs)
+        cfg['sweeper']['params']['quad_type'] = r.choice(['GAUSS', 'RADAU-LEFT', 'RADAU-RIGHT'])
+        cfg['sweeper']['params']['do_coll_update'] = True
     cfg['hooks'] = list(hooks)
     nblocks_est = nsteps // P + 2
     p_restart = 0.0 if kind == 'many' else r.choice([0.0, 0.0, 0.05, 0.15, 0.3])
